@@ -1,3 +1,4 @@
 /- Aggregate: C15 depth theorems (C15.lean) and their slot-level form (namespace C15 of C01Doc.lean). -/
 import AJ.Props.C15
 import AJ.Props.C01Doc
+import AJ.Props.C09Doc
